@@ -79,6 +79,19 @@ static void p_ecdsa_sign_custom(ProbeEnv &e) {
     secp256k1_ecdsa_signature s;
     C(secp256k1_ecdsa_sign, secp256k1_ecdsa_sign(CTX, &s, F.msg, F.sk[3], custom_nonce, F.extra)); ser_sig(e, &s);
 }
+static int retry_nonce(unsigned char *nonce32, const unsigned char *msg32, const unsigned char *key32, const unsigned char *algo16, void *data, unsigned int counter) {
+    g_seamc.nonce_calls++;
+    fiber_yield_point(-5);
+    if (counter == 0) { memset(nonce32, 0, 32); return 1; }        // unusable: zero
+    if (counter == 1) { memset(nonce32, 0xff, 32); return 1; }     // unusable: >= n
+    return custom_nonce(nonce32, msg32, key32, algo16, data, counter);
+}
+static void p_ecdsa_sign_retry(ProbeEnv &e) {
+    secp256k1_ecdsa_signature s; secp256k1_ecdsa_recoverable_signature rs; unsigned char b[64]; int recid = -1;
+    C(secp256k1_ecdsa_sign, secp256k1_ecdsa_sign(CTX, &s, F.msg, F.sk[1], retry_nonce, F.extra)); ser_sig(e, &s);
+    C(secp256k1_ecdsa_sign_recoverable, secp256k1_ecdsa_sign_recoverable(CTX, &rs, F.msg, F.sk[2], retry_nonce, F.extra));
+    C(secp256k1_ecdsa_recoverable_signature_serialize_compact, secp256k1_ecdsa_recoverable_signature_serialize_compact(CTX, b, &recid, &rs), O(b, 64), O(&recid, sizeof recid));
+}
 static void p_ecdsa_verify(ProbeEnv &e) {
     secp256k1_ecdsa_signature s, n; unsigned char der[80]; size_t dl = 80;
     C(secp256k1_ecdsa_signature_parse_compact, secp256k1_ecdsa_signature_parse_compact(CTX, &s, F.esig64));
@@ -137,6 +150,10 @@ static void p_schnorr_sign_custom(ProbeEnv &e) {
     ep.ndata = (void *)F.aux;
     C(secp256k1_schnorrsig_sign_custom, secp256k1_schnorrsig_sign_custom(CTX, sig, F.longmsg, 300, &F.kp[2], &ep), O(sig, 64));
     C(secp256k1_schnorrsig_sign_custom, secp256k1_schnorrsig_sign_custom(CTX, sig, F.longmsg, 0, &F.kp[2], NULL), O(sig, 64));
+    { unsigned char sig0[64]; const unsigned char *volatile nomsg = NULL;
+      C(secp256k1_schnorrsig_sign_custom, secp256k1_schnorrsig_sign_custom(CTX, sig0, nomsg, 0, &F.kp[2], NULL), O(sig0, 64));
+      secp256k1_xonly_pubkey x2; C(secp256k1_keypair_xonly_pub, secp256k1_keypair_xonly_pub(CTX, &x2, NULL, &F.kp[2]));
+      C(secp256k1_schnorrsig_verify, secp256k1_schnorrsig_verify(CTX, sig0, nomsg, 0, &x2)); }
     C(secp256k1_schnorrsig_sign_custom, secp256k1_schnorrsig_sign_custom(CTX, sig, F.longmsg, 65, &F.kp[3], &ep), O(sig, 64));
 }
 static void p_schnorr_verify(ProbeEnv &e) {
@@ -465,7 +482,7 @@ static void p_misuse(ProbeEnv &e) {
 const std::vector<Probe> &probe_table() {
     static const std::vector<Probe> t = {
         {"pubkey_create", p_pubkey_create}, {"seckey_ops", p_seckey_ops}, {"pubkey_ops", p_pubkey_ops}, {"pubkey_codec", p_pubkey_codec},
-        {"ecdsa_sign", p_ecdsa_sign}, {"ecdsa_sign_rfc", p_ecdsa_sign_rfc}, {"ecdsa_sign_custom", p_ecdsa_sign_custom}, {"ecdsa_verify", p_ecdsa_verify},
+        {"ecdsa_sign", p_ecdsa_sign}, {"ecdsa_sign_rfc", p_ecdsa_sign_rfc}, {"ecdsa_sign_custom", p_ecdsa_sign_custom}, {"ecdsa_sign_retry", p_ecdsa_sign_retry}, {"ecdsa_verify", p_ecdsa_verify},
         {"recoverable_sign", p_recoverable}, {"recover", p_recover}, {"keypair", p_keypair}, {"keypair_tweak", p_keypair_tweak}, {"xonly", p_xonly},
         {"schnorr_sign", p_schnorr_sign}, {"schnorr_sign_custom", p_schnorr_sign_custom}, {"schnorr_verify", p_schnorr_verify}, {"tagged_sha256", p_tagged},
         {"ecdh", p_ecdh}, {"ellswift_create", p_ellswift_create}, {"ellswift_codec", p_ellswift_codec}, {"ellswift_xdh", p_ellswift_xdh},
